@@ -33,10 +33,14 @@ func (verifInstance) GetInstanceType() (string, error) { return "ecs.x", nil }
 func TestVerifC19Flavor(t *testing.T) {
 	r := ev.New("C19", "node-cr-flavor")
 	defer r.Flush()
-	r.Rule("every NodeCap (adapters 0..4, addresses per adapter 1..3, IPv6 {0, same, other}, member limit {0,5}, RDMA quantity 0..1) x eni-config (ip_stack, trunking, RDMA, pool sizes min/max in {-1,0,1,3}, exclusive-ENI label) through the REAL daemon-side nodeReconcile.Reconcile on a fake API server; oracle on the published Node CR: every flavor count >= 0, their sum <= attachable secondary interfaces, at most one trunk / one RDMA slot and only when the instance supports them, IPv6 only with equal per-adapter quotas, pool 0 <= min <= max")
+	r.Rule("every NodeCap (adapters 0..4, addresses per adapter 1..3 (thorough: 0..8, 1..5), IPv6 {0, same, other}, member limit {0,5}, RDMA quantity 0..1) x eni-config (ip_stack, trunking, RDMA, pool sizes min/max in {-1,0,1,3}, exclusive-ENI label) through the REAL daemon-side nodeReconcile.Reconcile on a fake API server; oracle on the published Node CR: every flavor count >= 0, their sum <= attachable secondary interfaces, at most one trunk / one RDMA slot and only when the instance supports them, IPv6 only with equal per-adapter quotas, pool 0 <= min <= max")
 	instance.Init(verifInstance{})
-	for ad := 0; ad <= 4; ad++ {
-		for per := 1; per <= 3; per++ {
+	maxAd, maxPer := 4, 3
+	if ev.Thorough() {
+		maxAd, maxPer = 8, 5
+	}
+	for ad := 0; ad <= maxAd; ad++ {
+		for per := 1; per <= maxPer; per++ {
 			for _, v6 := range []int{0, per, per + 1} {
 				for _, member := range []int{0, 5} {
 					for eri := 0; eri <= 1; eri++ {
